@@ -2,24 +2,24 @@
    Only statements, [exact], and Print Assumptions live here. *)
 From PG Require Import Lib.Strs Model.Converter Model.ModelGen Proofs.ModelGen.
 
-(* For EVERY format string (in the regenerated table of _resolve_string or not): unless it resolves to
-   a type without converter hook (guard, finding F03a), the resolved type is one the round-trip
-   theorem C16_encode_decode covers. *)
-Theorem C03_types_supported_partial : forall fmt,
-  ty_has_unhooked (resolve_format fmt) = false -> ty_ok (resolve_format fmt) = true.
+(* FULL.  For EVERY format string (in the regenerated table of _resolve_string or not) the resolved
+   type is one the converter has hooks for and the round-trip theorem C16_encode_decode covers. *)
+Theorem C03_types_supported : forall fmt, ty_ok (resolve_format fmt) = true.
 Proof. exact formats_supported. Qed.
-Print Assumptions C03_types_supported_partial.
+Print Assumptions C03_types_supported.
 
-Theorem C03_refuted_F03a :
-  In s_uuid (map fst format_map) /\ ty_has_unhooked (resolve_format s_uuid) = true /\
-  ty_ok (resolve_format s_uuid) = false.
-Proof. exact refuted_F03a. Qed.
-Print Assumptions C03_refuted_F03a.
+(* F03a (fixed): uuid / time resolve to UUID / time, now supported leaf types of the converter. *)
+Theorem C03_regression_F03a :
+  resolve_format s_uuid = TUuid /\ resolve_format [116;105;109;101] = TTime /\
+  ty_ok (resolve_format s_uuid) = true /\ ty_ok (resolve_format [116;105;109;101]) = true.
+Proof. exact regression_F03a. Qed.
+Print Assumptions C03_regression_F03a.
 
-Theorem C03_guard_nonvacuous : exists fmt, In fmt (map fst format_map) /\
-  ty_has_unhooked (resolve_format fmt) = false /\ resolve_format fmt = TDatetime.
-Proof. exact formats_nonvacuous. Qed.
-Print Assumptions C03_guard_nonvacuous.
+(* F03c (fixed): List["M"] inside M is a supported list-of-dataclass type for the converter. *)
+Theorem C03_regression_F03c : forall c,
+  resolve (PArr (PSelf c)) = TList (TData c) /\ ty_ok (resolve (PArr (PSelf c))) = true.
+Proof. exact regression_F03c. Qed.
+Print Assumptions C03_regression_F03c.
 
 (* FULL.  Keys on the wire are the spec's property names whatever field names were derived: for ANY
    name sanitizer and ANY list of distinct property names (any required flags, any order), the
